@@ -23,7 +23,7 @@ CONSTANTS Cfg,            \* static configuration, as Reducer.tla expects
           ExtMenu,        \* set of [ty, target, k] the environment may send
           MaxExt, MaxCancel, TimeoutMs,
           WallEpoch,      \* wall clock = now + WallEpoch (time.time vs time.monotonic)
-          Dev_MatchDoneWaiters, Dev_WaitIndexOneBased, Dev_NoHandlersUnvalidated,
+          Dev_MatchDoneWaiters, Dev_WaitIndexOneBased, Dev_NoHandlersUnvalidated, Dev_RepingResolvedWaiters,
           TrackLog,       \* keep the tick log (needed for C11 only; it makes every path a distinct state)
           Dev_ClockMix,   \* BasicRuntime: first_attempt_at from the monotonic clock, failed_at from the wall clock
           MaxResume       \* how often the environment may serialise the context and resume it (PauseResume)
